@@ -375,6 +375,12 @@ def _mime_family(check: Check, algs):
             for x in aff.expand(g):
               if isinstance(x, ast.Call) and wmean.repo_fn(aff, x) in wmean.INV:
                 okb = True
+              elif isinstance(x, ast.Call) and okb is False:
+                # produced by a helper this rule does not know (a function that is not on the reference tree): not judged
+                from fjsa import inline
+                rr = aff.callee(x)
+                if rr.kind == 'func' and rr.func.name not in (inline.known_defs(rr.func.module.relpath) or set()):
+                  okb = None
           check.ob('R-MIME.grads-binding', alg.apply, txt(c)[:90], okb,
                    'the gradient handed to the server update must be the zero-guarded full-batch mean', node=c)
     if not sites:
